@@ -13,7 +13,9 @@ HERE = os.path.dirname(os.path.abspath(__file__))
 # deliberately tiny: different bodies under one name, and one body at several
 # points of a history, must be the norm
 SMALL_NAMES = ["f", "g", "h", "test", "oracle"]
-ARG_NAMES = ["a", "b", "c", "x", "y", "x0"]
+# x0: the first name sympy's cse invents; anc / anc_0 / a_0 / q0: names (or near-names) the library
+# itself gives to ancillas, argument bits (a.0) and qubits
+ARG_NAMES = ["a", "b", "c", "x", "y", "x0", "anc", "a_0", "q0", "anc_0"]
 
 # Names that live in the namespace the library exec()s user source into
 # (qlasskit/qlassfun.py module globals + the builtins that module uses).  The
